@@ -147,4 +147,94 @@ theorem decode_enc_append (t : Item) (h : Small (2 ^ 31) t) (rest : Bytes) :
   rw [enc_eq_spec t (small_mono (by decide) t h)]
   exact decode_rlp_append t h rest
 
+
+/-! ### 4. Whatever the decoder returns is small, canonical re-encoding never grows, decoding is stable -/
+
+/-- Everything the decoder returns satisfies the decoder's own size cap, and its canonical encoding is
+    no longer than the bytes consumed. -/
+theorem dec_small : ∀ f,
+    (∀ (bs : Bytes) (it : Item) (n : Nat), decOne f bs = .ok (it, n) →
+        Small (2 ^ 31) it ∧ (Spec.Rlp.rlp it).length ≤ n) ∧
+    (∀ (bs : Bytes) (xs : List Item), decMany f bs = .ok xs →
+        SmallL (2 ^ 31) xs ∧ (Spec.Rlp.rlpSeq xs).length ≤ bs.length) := by
+  intro f
+  induction f with
+  | zero =>
+    constructor
+    · intro bs it n h; simp [decOne] at h
+    · intro bs xs h; simp [decMany] at h
+  | succ f ih =>
+    constructor
+    · intro bs it n h
+      unfold decOne at h
+      split at h
+      · rename_i it' n' hh
+        injection h with h; injection h with h1 h2; subst h1 h2
+        obtain ⟨d, hd, hl, hsm⟩ := header_leaf_canon hh
+        subst hd
+        exact ⟨by simp only [Small]; exact hsm, by simpa [Spec.Rlp.rlp] using hl⟩
+      · rename_i p n' hh
+        split at h
+        · rename_i child hc
+          injection h with h; injection h with h1 h2; subst h1 h2
+          have := ih.2 p child hc
+          have hb := header_sub_canon hh (Spec.Rlp.rlpSeq child) this.2
+          refine ⟨?_, by simpa [Spec.Rlp.rlp] using hb.1⟩
+          simp only [Small]
+          exact ⟨by omega, this.1⟩
+        · cases h
+        · cases h
+      · cases h
+      · cases h
+    · intro bs xs h
+      unfold decMany at h
+      split at h
+      · injection h with h; subst h; simp [SmallL, Spec.Rlp.rlpSeq]
+      · rename_i b t
+        split at h
+        · rename_i it n hd
+          split at h
+          · rename_i more hm
+            injection h with h; subst h
+            have h1 := ih.1 _ _ _ hd
+            have h2 := ih.2 _ _ hm
+            have hb := decOne_bounds hd
+            simp only [SmallL, Spec.Rlp.rlpSeq, List.length_append]
+            refine ⟨⟨h1.1, h2.1⟩, ?_⟩
+            have : ((b :: t).drop n).length = (b :: t).length - n := by simp
+            omega
+          · cases h
+          · cases h
+        · cases h
+        · cases h
+
+/-- **Stability.** If decoding arbitrary bytes returns an element, re-encoding it and decoding again
+    returns the same element and consumes exactly the re-encoding. -/
+theorem decode_stable {bs : Bytes} {it : Item} {pos : Nat} (h : Decode bs = .ok (some it, pos)) :
+    Decode (enc it) = .ok (some it, (enc it).length) := by
+  unfold Decode at h
+  split at h
+  · simp at h
+  · split at h
+    · rename_i it' n hd
+      injection h with h; injection h with h1 h2
+      injection h1 with h1; subst h1
+      have hs := ((dec_small _).1 _ _ _ hd).1
+      have := decode_enc_append it' hs []
+      simpa using this
+    · cases h
+    · cases h
+
+/-- Non-vacuity of the size hypothesis: a depth-3 tree with a 56-byte string (long form) is `Small`. -/
+example : Small (2 ^ 31) (.list [.str (List.replicate 56 7), .list [.list [.str [0x80]], .str []]]) := by
+  have : (minBE 56).length ≤ 1 := minBE_length_le (by decide)
+  simp [Small, SmallL, Spec.Rlp.rlpSeq, Spec.Rlp.rlp, Spec.Rlp.Rb, Spec.Rlp.Rl]
+  omega
+
+/-- Every canonical encoding (the Yellow-Paper encoding of some tree — what any strict decoder accepts,
+    yielding that tree) is accepted and decoded to exactly that tree, consuming all of it. -/
+theorem canonical_accepted (t : Item) (h : Small (2 ^ 31) t) :
+    Decode (Spec.Rlp.rlp t) = .ok (some t, (Spec.Rlp.rlp t).length) := by
+  simpa using decode_rlp_append t h []
+
 end FFS.Props.C06
